@@ -159,7 +159,7 @@ class Gen(object):
     if wrong is None:
       wrong = self.flags['wrong']
     if r.random() < wrong:
-      return r.choice(['junk', '', None, 3, 2.5, True, ['L', 'q', 1], 'x y', -1, ['L']])
+      return r.choice(self.flags.get('wrong_values') or ['junk', '', None, 3, 2.5, True, ['L', 'q', 1], 'x y', -1, ['L']])
     base = typ.split(':')[0]
     if base == 'Int':
       return r.randint(-2, 5)
@@ -172,7 +172,7 @@ class Gen(object):
     if base == 'Bool':
       return r.choice([True, False])
     if base == 'ChoiceList':
-      return r.choice([None, ['L', 'a'], ['L', 'a', 'b'], ['L', 'b', 'c', 'a'], ['L', 'x']])
+      return r.choice([None, ['L', 'a'], ['L', 'a', 'b'], ['L', 'b', 'c', 'a'], ['L', 'x'], ['L', 'c', 'c'], ['L', 'b', 'a', 'b']])
     if base == 'Date':
       return r.choice([None, 86400 * r.randint(0, 20000)])
     if base == 'DateTime':
@@ -183,6 +183,9 @@ class Gen(object):
       if base == 'Ref':
         return r.choice(rows + [0]) if rows else 0
       k = r.randint(0, min(3, len(rows)))
+      if k and r.random() < 0.12:
+        x = r.choice(rows)
+        return ['L', x] + r.sample(rows, k - 1) + [x]     # a repeated element
       return (['L'] + r.sample(rows, k)) if k else None
     if base in ('PositionNumber', 'ManualSortPos'):
       return r.choice([0.5, 1.5, 2.5, 10, 1])
@@ -384,7 +387,11 @@ class Gen(object):
     if t is None or not self._room(t):
       return None
     typ = self.r.choice(['Ref:', 'RefList:']) + self.r.choice(m.user_tables)['id']
-    return ['AddColumn', t['id'], self.name('R'), {'type': typ, 'isFormula': False}]
+    info = {'type': typ, 'isFormula': False}
+    if self.r.random() < self.flags.get('ref_default_formula', 0.15):
+      # a reference column with a default-value formula (a data column that has a formula)
+      info['formula'] = self.r.choice(['1', '2']) if typ.startswith('Ref:') else self.r.choice(['[1]', '[2, 1]'])
+    return ['AddColumn', t['id'], self.name('R'), info]
 
   def k_add_formula_column(self, m):
     r = self.r
@@ -468,12 +475,17 @@ class Gen(object):
     ss = [s for s in m.sections.values() if s['tableRef'] in m.byref]
     if not ss:
       return None
-    s = r.choice(ss)
+    sums = [s for s in ss if m.byref[s['tableRef']]['summary'] and s['view']]
+    s = r.choice(sums) if sums and r.random() < 0.6 else r.choice(ss)
     t = m.byref[s['tableRef']]
     cols = [c for c in t['cols'] if c['id'] != 'manualSort' and not c['id'].startswith('gristHelper_')]
     if not cols:
       return None
-    c = r.choice(cols)
+    grp = [c for c in cols if c['id'] == 'group']
+    c = grp[0] if grp and r.random() < 0.5 else r.choice(cols)
+    shown = set(f['colRef'] for f in m.fields.values() if f['section'] == s['ref'])
+    if c['ref'] in shown and r.random() < 0.8:
+      return None
     return ['AddRecord', '_grist_Views_section_field', None, {'parentId': s['ref'], 'colRef': c['ref']}]
 
   def k_modify_type(self, m):
@@ -662,7 +674,7 @@ class Gen(object):
     t, c = self._col(m, lambda c: c['type'] in ('Choice', 'ChoiceList') and not c['isFormula'])
     if c is None:
       return None
-    ren = r.choice([{'a': 'b', 'b': 'a'}, {'a': 'z'}, {'q': 'r'}, {'a': 'b', 'b': 'c', 'c': 'a'}, {'x': 'x'}])
+    ren = r.choice([{'a': 'b', 'b': 'a'}, {'a': 'z'}, {'q': 'r'}, {'a': 'b', 'b': 'c', 'c': 'a'}, {'x': 'x'}, {'a': 'c', 'b': 'c'}, {'a': 'y', 'b': 'y'}])
     return ['RenameChoices', t['id'], c['id'], ren]
 
   # ---- views / sections / summaries
